@@ -13,7 +13,7 @@ import (
 
 // ---------------------------------------------------------------- random semantic configurations
 
-var customMethods = []string{"PUT", "DELETE", "PATCH", "patch", "OPTIONS", "PURGE", "Put", "QUERY", "query"}
+var customMethods = []string{"PUT", "DELETE", "PATCH", "patch", "OPTIONS", "PURGE", "Put", "QUERY", "query", "M-SEARCH", "A_B", "a^b", "x"}
 var reqHdrUniverse = []string{"authorization", "x-a", "x-b", "content-type", "x-requested-with", "x-a-b", "a", "zz-last",
 	// every non-alphanumeric token character, placed after letters (so that case variants have an upper-case letter in front)
 	"x_trace_id", "x^caret", "x`tick", "x|bar~tilde", "x!#$%&'*+.", "0-9",
